@@ -14,7 +14,7 @@ def main():
     for s, m in b.get("errors", []):
         print("ERROR", s, m)
     # regenerate translated models so that the committed copies match the tree
-    for tr in ("tr_trackutils.py", "tr_blobs.py", "tr_blobs_v1.py", "tr_prim.py", "tr_v1bindings.py", "tr_beatgrid.py"):
+    for tr in ("tr_trackutils.py", "tr_blobs.py", "tr_blobs_v1.py", "tr_zlib.py", "tr_prim.py", "tr_v1bindings.py", "tr_beatgrid.py"):
         p = os.path.join(VERIF, "tools", tr)
         if os.path.exists(p):
             r = subprocess.run([sys.executable, p], stdout=subprocess.PIPE, stderr=subprocess.STDOUT, text=True)
